@@ -25,8 +25,8 @@ BOUND = {"quick": "21 configurations x 1 document, every single crash point (W~6
 CHUNK = 1
 CASE_TIMEOUT_S = 900
 
-LAYOUTS = {"embedded": ("cli", None), "sibling": ("cli", "core"), "nested": ("pk.cli", "pk.core")}
-TREES = ["absent", "equal", "different", "partial", "nocore"]
+LAYOUTS = {"embedded": ("cli", None), "sibling": ("cli", "core"), "nested": ("pk.cli", "pk.core"), "deep": ("acme.clients.petstore", None)}
+TREES = ["absent", "equal", "different", "partial", "nocore", "namespace"]
 
 # ----------------------------------------------------------------------------------------------
 # audit-hook fault injector (installed once per worker process; inert unless armed)
@@ -113,7 +113,16 @@ def cases(tier, seed):
                 for force in (False, True):
                     if tier == "quick" and ((force and tree in ("different", "partial")) or (not force and tree == "absent")):
                         continue  # quick: forced runs over absent/equal/nocore trees, non-forced runs over every existing tree
+                    if tree == "namespace" and (force or "." not in LAYOUTS[lay][0]):
+                        continue  # ancestors without __init__.py exist only for dotted packages; the interesting run is the non-force one
+                    if lay == "deep" and tier == "quick" and tree not in ("equal", "namespace", "absent"):
+                        continue
                     out.append({"doc": dn, "layout": lay, "tree": tree, "force": force, "history": False})
+    # post-processing switched on (the default of the CLI): the formatter runs in a subprocess, so its writes are judged by the tree
+    # snapshot (fault-free run and stage faults), not by the audit hook
+    for lay in LAYOUTS:
+        for tree, force in (("absent", True), ("equal", True), ("equal", False), ("different", False)):
+            out.append({"doc": "petstore", "layout": lay, "tree": tree, "force": force, "history": False, "postprocess": True})
     if tier != "quick":
         for lay in LAYOUTS:
             out.append({"doc": "petstore", "layout": lay, "tree": "absent", "force": True, "history": True})
@@ -125,15 +134,16 @@ def plant_sentinels(root, out_pkg, core_pkg):
         "README.txt": "project readme",
         "setup.cfg": "[x]",
         "otherpkg/__init__.py": "",
-        "otherpkg/keep.py": "X = 1\n",
+        "otherpkg/keep.py": "import os, sys\nX = {'a':1}\n",        # hand-written code a formatter / import fixer would rewrite
         "cli_backup/keep.py": "Y = 2\n",
         "cli2/__init__.py": "# sibling with a similar name\n",
         "core_old/keep.py": "Z = 3\n",
     }
     if "." in out_pkg:
         top = out_pkg.split(".")[0]
-        files[f"{top}/keep_in_ancestor.py"] = "A = 1\n"
+        files[f"{top}/keep_in_ancestor.py"] = "import json, re\nA = {'k':[1,2]}\n"
         files[f"{top}/sibling/__init__.py"] = ""
+        files[f"{top}/sibling/invoice.py"] = "from typing import List, Dict\ndef total(xs) :\n  return sum(xs)\n"
         files[f"{top}/sibling/data.json"] = "{}"
     for rel, content in files.items():
         p = os.path.join(root, rel)
@@ -150,12 +160,13 @@ def prepare(base, case):
     os.makedirs(root)
     doc = docs.get(case["doc"])
     other = docs.get("unions" if case["doc"] != "unions" else "petstore")
-    if case["tree"] in ("equal", "partial", "nocore"):
-        files, err = sandbox.generate(doc, root, output_package=out_pkg, core_package=core_pkg, force=True)
+    npp = not case.get("postprocess")
+    if case["tree"] in ("equal", "partial", "nocore", "namespace"):
+        files, err = sandbox.generate(doc, root, output_package=out_pkg, core_package=core_pkg, force=True, no_postprocess=npp)
         if err is not None:
             raise HarnessError(f"could not prepare tree: {err}")
     elif case["tree"] == "different":
-        files, err = sandbox.generate(other, root, output_package=out_pkg, core_package=core_pkg, force=True)
+        files, err = sandbox.generate(other, root, output_package=out_pkg, core_package=core_pkg, force=True, no_postprocess=npp)
         if err is not None:
             raise HarnessError(f"could not prepare tree: {err}")
     if case["tree"] == "partial":
@@ -164,6 +175,13 @@ def prepare(base, case):
         shutil.rmtree(os.path.join(od, "mocks"))
         cd = pkgcheck.pkg_dir(root, core_pkg or out_pkg + ".core")
         os.unlink(os.path.join(cd, "utils.py"))
+    if case["tree"] == "namespace":
+        # an up-to-date package whose ancestor directories are namespace packages (their __init__.py removed)
+        parts = out_pkg.split(".")
+        for i in range(1, len(parts)):
+            p = os.path.join(root, *parts[:i], "__init__.py")
+            if os.path.exists(p):
+                os.unlink(p)
     if case["tree"] == "nocore":
         # client package present, core directory gone entirely
         shutil.rmtree(pkgcheck.pkg_dir(root, core_pkg or out_pkg + ".core"))
@@ -266,7 +284,7 @@ def run_once(base, case, fault, prepared_copy):
         undo = fault[2](cg)
     try:
         files, err = sandbox.generate(doc, root, output_package=out_pkg, core_package=core_pkg, force=case["force"], reset=True,
-                                      around=lambda: Armed(_HB[0], fail_at))
+                                      around=lambda: Armed(_HB[0], fail_at), no_postprocess=not case.get("postprocess"))
         count, log = _ST["count"], list(_ST["log"])
     finally:
         if undo:
@@ -316,7 +334,7 @@ def check_run(case, label, fault_label, before, after, err, add):
         if faulted and err is None:
             add(f"outcome|{case['tree']}|{case['layout']}", "non-force run reports success although a step failed part-way", fault_label)
         if not faulted:
-            if case["tree"] == "equal" and err is not None:
+            if case["tree"] in ("equal", "namespace") and err is not None:
                 add(f"outcome|equal|{case['layout']}", "non-force run over an up-to-date tree does not succeed", f"{type(err).__name__}: {str(err)[:120]}")
             if case["tree"] in ("different", "partial", "nocore") and err is None:
                 add(f"outcome|{case['tree']}|{case['layout']}", "non-force run over a tree that differs from what would be generated reports success", "")
@@ -324,7 +342,8 @@ def check_run(case, label, fault_label, before, after, err, add):
 
 def run_case(case):
     install_hook()
-    label = f"{case['doc']}|{case['layout']}|tree={case['tree']}|{'force' if case['force'] else 'noforce'}" + ("|history" if case.get("history") else "")
+    label = (f"{case['doc']}|{case['layout']}|tree={case['tree']}|{'force' if case['force'] else 'noforce'}" + ("|history" if case.get("history") else "")
+             + ("|postprocess" if case.get("postprocess") else ""))
     found = []
     seen = set()
     nontriv = []
@@ -351,7 +370,7 @@ def run_case(case):
         check_log(case, "none", log, add)
         if W == 0 and (case["force"] or case["tree"] == "absent"):
             raise HarnessError("the audit hook saw no mutating event during a generating run: fault injector blind")
-        for k in range(1, W + 1):
+        for k in range(1, (W if not case.get("postprocess") else 0) + 1):
             b, a, e, cnt, lg = run_once(base, case, ("op", k), prep)
             n += 1
             ev = log[k - 1] if k - 1 < len(log) else ("?", "?")
